@@ -104,6 +104,11 @@ pub fn c08_configs(thorough: bool) -> Vec<EpCfg> {
                 // erase_stored_publish() as the application's message-expiry hook: releases a stored PUBLISH,
                 // must not touch an exchange that is past PUBREC
                 c.alph.erase = true;
+                // the option setters are ordinary calls: toggled at any time (in the configurations that
+                // start with automatic responses)
+                if auto && (thorough || role == RoleK::Client) {
+                    c.alph.toggle_opts = vec![0, 1];
+                }
                 if ver == Ver::V5 {
                     // refusal reasons: too large, Receive Maximum exceeded, alias out of range
                     c.alph.als = vec![Al::No, Al::Reg(3), Al::Use(1)];
